@@ -51,7 +51,8 @@ func runWr(e *Env) {
 
 	proto := []int{4, 3, 2, 5}[tp.Next(4)]
 	coalesce := []time.Duration{0, 200 * time.Microsecond, 5 * time.Millisecond}[tp.Next(3)]
-	timeout := []time.Duration{300 * time.Millisecond, 100 * time.Millisecond}[tp.Next(2)]
+	// (0: no request timeout and no write deadline - the documented meaning of Timeout 0)
+	timeout := []time.Duration{300 * time.Millisecond, 100 * time.Millisecond, 0}[tp.Weighted([]int{3, 3, 1})]
 	nTasks := 2 + tp.Next(5)
 	nOps := 2 + tp.Next(5)
 	chunk := 0
@@ -110,12 +111,27 @@ func runWr(e *Env) {
 			// deadline > 0: the request's context has a deadline this far away (shorter than
 			// the connection's write timeout: a stalled write is then cut by the context)
 			deadline time.Duration
+			// a point at which this very request is held on its way through the driver
+			arm string
+			// > 0: the connection's next write is cut short after this many bytes
+			tearAt int
 		}
 		var plans []plan
 		for oi := 0; oi < nOps; oi++ {
 			pl := plan{size: sizes[tp.Weighted([]int{4, 3, 3, 2, 2, 1, 1})], pre: faultsOn && tp.Chance(1, 12)}
 			if faultsOn && tp.Chance(1, 5) {
 				pl.deadline = []time.Duration{50 * time.Millisecond, 5 * time.Millisecond, 150 * time.Millisecond}[tp.Next(3)]
+			}
+			if faultsOn && timeout > 0 && tp.Chance(1, 8) {
+				// the write of this very request stalls until its deadline with part of the frame sent, and the caller is slow to act on
+				// the error (held right after it): what others write meanwhile is what counts
+				pl.tearAt = 1 + []int{0, 8, 9, 40, 4096, 20000, 60000}[tp.Next(7)]
+				pl.arm = "exec.writeErr"
+				if tp.Chance(1, 2) {
+					pl.size = sizes[5+tp.Next(2)] // a large frame
+				}
+			} else if faultsOn && tp.Chance(1, 5) {
+				pl.arm = []string{"exec.writeErr", "exec.writeErr", "exec.beforeWrite", "wc.enqueued", "dw.acquired", "exec.afterWrite"}[tp.Next(6)]
 			}
 			plans = append(plans, pl)
 		}
@@ -142,6 +158,17 @@ func runWr(e *Env) {
 				mu.Unlock()
 				stmt := "ECHO '" + token + "' /*" + strings.Repeat("x", pl.size) + "*/"
 				var got string
+				if pl.tearAt > 0 {
+					k.Fault("write.stall-with-slow-caller")
+					for _, sc := range cl.SConns() {
+						if !sc.Dead && !sc.C.ClientClosed() {
+							sc.C.ArmWriteFault(simnet.WriteFault{Kind: simnet.WriteStall, K: pl.tearAt})
+						}
+					}
+				}
+				if pl.arm != "" {
+					k.ArmNext(pl.arm)
+				}
 				err := sess.Query(stmt).WithContext(ctx).Scan(&got)
 				cancel()
 				mu.Lock()
@@ -180,6 +207,10 @@ func runWr(e *Env) {
 				sc := sc
 				acts = append(acts, kernel.Action{Key: "wfault:" + sc.C.Name, Rank: 6, Weight: 3, Do: func() {
 					kind := []simnet.WriteFaultKind{simnet.WriteStall, simnet.WriteShort, simnet.WriteErr0, simnet.WriteDeadlineErr}[tp.Next(4)]
+					if timeout == 0 && (kind == simnet.WriteStall || kind == simnet.WriteDeadlineErr) {
+						// (without a write deadline a stalled write lasts as long as the stall)
+						kind = simnet.WriteShort
+					}
 					off := []int{0, 1, 8, 9, 10, 40, 100, 4096, 50000}[tp.Next(9)]
 					k.Fault([]string{"", "write.short", "write.err0", "write.stall", "write.set-deadline-error"}[kind])
 					sc.C.ArmWriteFault(simnet.WriteFault{Kind: kind, K: off})
